@@ -13,8 +13,8 @@ R = [
  ("C02e-chunkwise-compressed-read-stride-phase", [(SG, "            chunk = self._raw[max(first, c0):min(last, c1):step, :]\n",
                                                    "            start = max(first, c0)\n            chunk = self._raw[start + (first - start) % step:min(last, c1):step, :]\n")],
   "compressed files read one compression chunk at a time, each piece starting on the caller's stride grid"),
- ("C03e-ind2save-saturate-int16-unrounded-common-path", [(NP, "            np.clip(rounded, i16.min, i16.max, out=chunk2save)\n        return chunk2save.astype(np.int16)\n",
-                                                          "            np.clip(rounded, i16.min, i16.max, out=rounded)\n        return rounded.astype(np.int16)\n")],
+ ("C03e-ind2save-saturate-int16-unrounded-common-path", [(NP, "            np.clip(rounded, i16.min, i16.max, out=chunk2save)\n", "            np.clip(rounded, i16.min, i16.max, out=rounded)\n"),
+                                                         (NP, "        return chunk2save.astype(np.int16)\n", "        return rounded.astype(np.int16)\n")],
   "_ind2save saturates to the int16 range and counts saturated samples; the rounded array is what is cast on every path"),
  ("C05e-destripe-adc-stencil-cache-keyed-on-version", [(VO, "    key = (neuropixel_version, *shape)\n", "    key = (np.asarray(sample_shift).tobytes(), *shape)\n")],
   "fshift stencil option + cache of the ADC re-alignment stencils in destripe, keyed on the delays themselves"),
@@ -32,13 +32,14 @@ R = [
   "split_sync fast path for chunks that never use lines 8-15, selected on the words as unsigned"),
  ("C11e-reader-shared-cached-meta", [(SG, "            self.meta = read_meta_data(meta_file, cache=True)\n", "            self.meta = Bunch(read_meta_data(meta_file, cache=True))\n")],
   "opt-in cache of parsed meta-data files; each Reader holds its own (shallow) copy so the duration repair stays private"),
- ("C12e-small-window-overlap-taper-rounding", [(NP, "        self.samples_overlap = overlap // self.ratio * self.ratio\n", "        self.samples_overlap = overlap // (4 * self.ratio) * (4 * self.ratio)\n"),
+ ("C12e-small-window-overlap-taper-rounding", [(NP, "        overlap = min(int(overlap or 576), self.samples_window // 4)\n", "        overlap = min(int(overlap or 576), self.samples_window // 2)\n"),
+                                               (NP, "        self.samples_overlap = overlap // self.ratio * self.ratio\n", "        self.samples_overlap = overlap // (4 * self.ratio) * (4 * self.ratio)\n"),
                                                (NP, "        self.samples_taper = self.samples_overlap // 4 // self.ratio * self.ratio\n", "        self.samples_taper = self.samples_overlap // 4\n")],
   "small processing windows: overlap option capped to a quarter of the window and rounded so that it stays four tapers of whole LF samples"),
  ("C13e-fold-short-trailing-chunk", [(WE, "        s0_arr, s1_arr = s0_arr[:-1], s1_arr[:-1]\n", "        s0_arr, s1_arr = s0_arr[:-1], s1_arr[:-1].copy()\n        s1_arr[-1] = ns\n")],
   "str / Path inputs, n_jobs bounds, chunk bounds helper folding a trailing chunk shorter than one waveform into the previous one (which then ends at ns)"),
- ("C14e-feature-index-labels-swap-writeback", [(WF, "        df.loc[df_index] = df_rows\n", "        df.iloc[i_rows] = df_rows\n")],
-  "optional index= labels for the feature table; the swapped rows are written back by position"),
+ ("C14e-feature-index-labels-swap-writeback", [(WF, "        if index.size != arr_in.shape[0]:\n", "        if not index.is_unique:\n            raise ValueError(\"index labels must be unique\")\n        if index.size != arr_in.shape[0]:\n")],
+  "optional index= labels for the feature table, which must be unique (the swapped rows are written back by label)"),
  ("C15e-kriging-decay-cache-row-aliasing", [(VO, "            weights = decay[i]\n", "            weights = decay[i].copy()\n")],
   "distance-decay matrix cached per geometry; each bad channel works on a private copy of its row"),
  ("C17e-precomputed-window-bounds-short-signal", [(UT, "        first = np.arange(0, self.ns - self.overlap, step)\n", "        first = np.arange(0, max(self.ns - self.overlap, 1), step)\n")],
